@@ -1089,7 +1089,20 @@ class _ThreadingNS(object):
             return SoloLock()
         return _ThreadingNS._real.Lock()
 
+    @staticmethod
+    def RLock():
+        w = CURRENT
+        if w is not None and w.sched is not None:
+            return w.sched.make_lock(reentrant=True)
+        return _ThreadingNS._real.RLock()
+
     Event = _real.Event
+    Thread = _real.Thread
+    Condition = _real.Condition
+    Semaphore = _real.Semaphore
+    local = _real.local
+    current_thread = staticmethod(_real.current_thread)
+    get_ident = staticmethod(_real.get_ident)
 
 
 def _random():
@@ -1136,6 +1149,22 @@ def install():
         lomond.websocket.threading = _ThreadingNS
     lomond.frame.make_masking_key = _masking_key
     lomond.persist.random = _random
+    # any other lomond module that creates locks gets the simulator's too
+    # (a real lock held by a parked thread would block the worker for real)
+    import pkgutil
+    import importlib
+    import threading as _rt
+    for mi in pkgutil.iter_modules(lomond.__path__):
+        try:
+            m = importlib.import_module('lomond.' + mi.name)
+        except Exception:
+            continue
+        if getattr(m, 'threading', None) is _rt:
+            m.threading = _ThreadingNS
+        if getattr(m, 'Lock', None) is _rt.Lock:
+            m.Lock = _ThreadingNS.Lock
+        if getattr(m, 'RLock', None) is _rt.RLock:
+            m.RLock = _ThreadingNS.RLock
     _installed = True
 
 
